@@ -65,6 +65,38 @@ theorem clausesOf_rel : ∀ (body : List (Item E B G P A)) (i : Nat) (vs : List 
     show c.2.1 ∈ a.rel :: rest.filterMap Item.rel?
     exact List.mem_cons_of_mem _ (clausesOf_rel rest (i + 1) vs.tail c hc)
 
+/-! ## the aggregated relations of a body -/
+
+theorem mem_aggsOf : ∀ (body : List (Item E B G P A)) (r : RelId), r ∈ aggsOf body → ∃ ag, Item.agg ag ∈ body ∧ ag.rel = r
+  | [], _, h => by simp [aggsOf] at h
+  | .clause _ _ _ :: rest, r, h => by
+    simp only [aggsOf] at h
+    obtain ⟨ag, h1, h2⟩ := mem_aggsOf rest r h
+    exact ⟨ag, List.mem_cons_of_mem _ h1, h2⟩
+  | .cond _ :: rest, r, h => by
+    simp only [aggsOf] at h
+    obtain ⟨ag, h1, h2⟩ := mem_aggsOf rest r h
+    exact ⟨ag, List.mem_cons_of_mem _ h1, h2⟩
+  | .gen _ _ :: rest, r, h => by
+    simp only [aggsOf] at h
+    obtain ⟨ag, h1, h2⟩ := mem_aggsOf rest r h
+    exact ⟨ag, List.mem_cons_of_mem _ h1, h2⟩
+  | .agg a :: rest, r, h => by
+    simp only [aggsOf, List.mem_cons] at h
+    rcases h with rfl | h
+    · exact ⟨a, List.mem_cons_self, rfl⟩
+    · obtain ⟨ag, h1, h2⟩ := mem_aggsOf rest r h
+      exact ⟨ag, List.mem_cons_of_mem _ h1, h2⟩
+
+/-- an aggregation-free body aggregates nothing: the frozen check of `evalRulePar` on the aggregated relations is vacuous -/
+theorem aggsOf_aggFree (r : Rule E B G P A) (h : r.aggFree = true) : aggsOf r.body = [] := by
+  cases hb : aggsOf r.body with
+  | nil => rfl
+  | cons x xs =>
+    obtain ⟨ag, h1, _⟩ := mem_aggsOf r.body x (by rw [hb]; exact List.mem_cons_self)
+    have := List.all_eq_true.mp h _ h1
+    simp [Item.isAgg] at this
+
 /-! ## one MIR rule over the frozen indices -/
 
 theorem anyEmptyPar_sound (I : Interp E B G P A) (cfg : Config) (p : Program E B G P A) (ix : IxSets) (a : SccSt) (s : PCScc)
@@ -89,8 +121,8 @@ theorem evalRulePar_rows (I : Interp E B G P A) (hI : Plan.Ext I) (cfg : Config)
       ∀ x, x ∈ envs.flatMap (headRows I r.heads) ↔ x ∈ (evalBody I cfg p a r.body vs []).flatMap (headRows I r.heads) := by
   have hall : (clausesOf 0 r.body vs).all (fun c => viewFrozen s c.2.1 c.2.2) = true := List.all_eq_true.mpr hfz
   unfold evalRulePar
-  rw [hall]
-  simp only [Bool.not_true, Bool.false_eq_true, if_false]
+  rw [hall, aggsOf_aggFree r hr.aggFree]
+  simp only [List.all_nil, Bool.and_self, Bool.not_true, Bool.false_eq_true, if_false]
   split
   · rename_i he
     refine ⟨[], rfl, fun x => ?_⟩
